@@ -23,7 +23,8 @@ func valueToPyObject(value reflect.Value) pyObject {
 		for i := 0; i < value.Len(); i++ {
 			l[i] = pyString(value.Index(i).String())
 		}
-		return l
+		return l.Freeze() // shared by all packages
+
 	case reflect.Struct:
 		return pyString(value.Interface().(fmt.Stringer).String())
 	default:
